@@ -24,7 +24,7 @@ def runs(ctx, quick, thorough):
     return str(thorough if ctx.tier == "thorough" else quick)
 
 
-def network(ctx, prefix, quick=400, thorough=4000, seeds_thorough=4):
+def network(ctx, prefix, quick=1200, thorough=5000, seeds_thorough=4):
     """Runs the shared stream(s); returns the stream dicts."""
     sts = []
     seeds = [ctx.seed] if ctx.tier != "thorough" else [ctx.seed * 1000 + k for k in range(seeds_thorough)]
